@@ -38,6 +38,11 @@ Match1(m, f) ==
        [] op = "any" -> Len(v) > 0
        [] op = "lengt" -> Len(v) > a
        [] op = "lenlt" -> Len(v) < a
+       \* the fixed menu of regular expressions and globs (ASCII values): their meaning written out
+       [] op = "re_allA"   -> Len(v) > 0 /\ \A i \in 1..Len(v) : v[i] = 97                                       \* !!regex ^a+$
+       [] op = "re_bdotc"  -> \E i \in 1..(Len(v) - 2) : v[i] = 98 /\ v[i + 1] # 10 /\ v[i + 2] = 99           \* !!regex b.c
+       [] op = "gl_astarb" -> Len(v) >= 2 /\ v[1] = 97 /\ v[Len(v)] = 98                                          \* !!glob a*b
+       [] op = "gl_alt"    -> (Len(v) = 3 /\ v[1] = 97 /\ v[2] = 98) \/ (Len(v) = 2 /\ v[1] = 99)               \* !!glob {ab,c}?
 MatchAll(ms, f) == \A i \in 1..Len(ms) : Match1(ms[i], f)
 
 (* ---- templates ---- *)
@@ -123,6 +128,24 @@ ExtractTail(v, left, cls, right, maxLen) ==
 (* ---- the interpreter.  st = [f |-> fields, un |-> Unescaped flag, res |-> "PASS" | "DROP", ds |-> drop counters] ---- *)
 Lookup(pairs, k, dflt) == IF \E i \in 1..Len(pairs) : pairs[i][1] = k
                           THEN pairs[CHOOSE i \in 1..Len(pairs) : pairs[i][1] = k][2] ELSE dflt
+(* ---- replace / extract with the fixed menu of regular expressions ---- *)
+RECURSIVE DropA(_)
+DropA(s) == IF s # <<>> /\ Head(s) = 97 THEN DropA(Tail(s)) ELSE s
+RECURSIVE ReplRunsA(_)
+ReplRunsA(s) == IF s = <<>> THEN <<>>                                                  \* a+ -> X
+                ELSE IF Head(s) = 97 THEN <<88>> \o ReplRunsA(DropA(Tail(s))) ELSE <<Head(s)>> \o ReplRunsA(Tail(s))
+DelB(s) == SelectSeq(s, LAMBDA c : c # 98)                                             \* b -> (nothing)
+Rot2(s) == IF Len(s) >= 2 /\ \A i \in 1..Len(s) : s[i] # 10                          \* ^(..)(.*)$ -> $2$1
+             THEN SubSeq(s, 3, Len(s)) \o SubSeq(s, 1, 2) ELSE s
+ReplaceBy(pat, s) == CASE pat = "runsA" -> ReplRunsA(s) [] pat = "delB" -> DelB(s) [] pat = "rot2" -> Rot2(s)
+InAC(c) == c >= 97 /\ c <= 99
+RECURSIVE RunAC(_, _)
+RunAC(s, i) == IF i <= Len(s) /\ InAC(s[i]) THEN RunAC(s, i + 1) ELSE i - 1            \* last index of the run of a-c starting at i
+\* ^(?P<f4>[a-c]+)=(?P<f5>[a-c]*) : <<matched, f4, f5>>
+ExtractKV(s) == LET e == RunAC(s, 1) IN
+                IF e >= 1 /\ e + 1 <= Len(s) /\ s[e + 1] = 61
+                  THEN <<TRUE, SubSeq(s, 1, e), SubSeq(s, e + 2, RunAC(s, e + 2))>> ELSE <<FALSE, <<>>, <<>>>>
+
 RECURSIVE Run(_, _, _), Apply(_, _), FirstCase(_, _, _)
 Run(ts, k, st) == IF k > Len(ts) \/ st.res = "DROP" THEN st ELSE Run(ts, k + 1, Apply(ts[k], st))
 FirstCase(cases, k, st) == IF k > Len(cases) THEN st
@@ -156,6 +179,9 @@ Apply(t, st) ==
            ELSE st
     [] t.t = "unescape" ->
          IF st.un THEN st ELSE [st EXCEPT !.un = TRUE, !.f[t.key] = Unesc(f[t.key], 1)]
+    [] t.t = "replace" -> IF f[t.key] = <<>> THEN st ELSE [st EXCEPT !.f[t.key] = ReplaceBy(t.pat, f[t.key])]
+    [] t.t = "extract" -> LET r == ExtractKV(f[t.key]) IN      \* (t.pat = "kv": captures f4 = field 4, f5 = field 5)
+                          IF r[1] THEN [st EXCEPT !.f[4] = r[2], !.f[5] = r[3]] ELSE st
 
 \* sampled dropping tracks the configured percentage to within one record at every prefix of the matched stream
 SamplingOk(prog, ds) ==
